@@ -19,10 +19,13 @@ from . import sx
 from .prng import Rng
 
 VERIF = os.path.dirname(os.path.dirname(os.path.abspath(__file__)))
-REPO = '/repo'
-BUILD = os.path.join(VERIF, '.build')
+# The registered checks always use /repo, /verif/harness and /verif/.build.  The three overrides exist only so
+# that work on one property can be done against a scratch worktree of /repo without disturbing the others.
+REPO = os.environ.get('VERIF_REPO', '/repo')
+BUILD = os.environ.get('VERIF_BUILD', os.path.join(VERIF, '.build'))
 COQ = os.path.join(VERIF, 'coq')
-HARNESS = os.path.join(VERIF, 'harness')
+HARNESS = os.environ.get('VERIF_HARNESS', os.path.join(VERIF, 'harness'))
+SHARED_LOCKS = os.path.join(VERIF, '.build')
 NPROC = 16
 
 FORBIDDEN = re.compile(
@@ -45,7 +48,8 @@ def log(*a):
 class Lock:
     def __init__(self, name):
         os.makedirs(BUILD, exist_ok=True)
-        self.path = os.path.join(BUILD, name + '.lock')
+        os.makedirs(SHARED_LOCKS, exist_ok=True)
+        self.path = os.path.join(SHARED_LOCKS if name == 'coq' else BUILD, name + '.lock')
 
     def __enter__(self):
         self.f = open(self.path, 'w')
@@ -83,10 +87,11 @@ def build_harness(bins):
         if not os.path.exists(lock_dst):
             shutil.copy(lock_src, lock_dst)
         cmd = ['cargo', 'build', '--offline'] + sum((['--bin', b] for b in bins), [])
-        rc, out, dt = sh(cmd, cwd=HARNESS, timeout=1500)
+        tenv = {'CARGO_TARGET_DIR': os.path.join(BUILD, 'target-vh')}
+        rc, out, dt = sh(cmd, cwd=HARNESS, timeout=1500, env=tenv)
         if rc != 0 and 'lock file' in out:
             shutil.copy(lock_src, lock_dst)
-            rc, out, dt = sh(cmd, cwd=HARNESS, timeout=1500)
+            rc, out, dt = sh(cmd, cwd=HARNESS, timeout=1500, env=tenv)
     log('cargo build %s: rc=%d %.0fs' % (bins, rc, dt))
     return rc == 0, out
 
@@ -150,14 +155,41 @@ def coq_clean():
                     os.remove(os.path.join(root, n))
 
 
-def forbidden_words():
-    """Admitted / Axiom / Parameter / ... anywhere in the development (comments are stripped first)."""
+def coq_closure(rel_files):
+    """.v files (relative to coq/) reachable from rel_files through `From Sccache Require ...` / `Require Sccache.X`."""
+    seen = []
+    todo = list(rel_files)
+    while todo:
+        f = todo.pop()
+        if f in seen or not os.path.exists(os.path.join(COQ, f)):
+            continue
+        seen.append(f)
+        txt = strip_coq_comments(open(os.path.join(COQ, f), encoding='utf-8', errors='replace').read())
+        for m in re.finditer(r'(?:From\s+Sccache\s+)?Require\s+(?:Import\s+|Export\s+)?([^.]*?(?:\.[A-Za-z_][A-Za-z_0-9\']*)*)\s*\.(?=\s|$)', txt):
+            frm = m.group(0).lstrip().startswith('From')
+            for mod in m.group(1).split():
+                if mod.startswith('Sccache.'):
+                    mod = mod[len('Sccache.'):]
+                elif not frm:
+                    continue
+                todo.append('theories/' + mod.replace('.', '/') + '.v')
+    return seen
+
+
+def forbidden_words(only=None):
+    """Admitted / Axiom / Parameter / ... in the development (comments are stripped first).
+    only = list of files relative to coq/ (a property's dependency closure); None = everything."""
     hits = []
-    for root, _, names in os.walk(COQ):
-        for n in names:
-            if not n.endswith('.v'):
-                continue
-            p = os.path.join(root, n)
+    paths = []
+    if only is None:
+        for root, _, names in os.walk(COQ):
+            for n in names:
+                if n.endswith('.v'):
+                    paths.append(os.path.join(root, n))
+    else:
+        paths = [os.path.join(COQ, f) for f in only]
+    for p in paths:
+        if True:
             txt = open(p, encoding='utf-8', errors='replace').read()
             txt = strip_coq_comments(txt)
             in_section = 0
@@ -644,8 +676,10 @@ def standard_check(mod, tier, seed, replay=None):
     else:
         for n in names:
             rep.oblige('theorem:' + n, False, 'not checked: make failed')
-    hits = forbidden_words()
-    rep.oblige('no-Admitted/Axiom/Parameter/unsafe-flags', not hits, '; '.join(hits[:10]))
+    closure = coq_closure([prop_file] + ['theories/%s.v' % m.replace('.', '/') for m in ([run_module] if run_module else []) + list(getattr(mod, 'COQ_EXTRA', []))])
+    hits = forbidden_words(None if tier == 'thorough' else closure)
+    rep.oblige('no-Admitted/Axiom/Parameter/unsafe-flags', not hits,
+               '; '.join(hits[:10]) if hits else 'scanned %s' % ('whole development' if tier == 'thorough' else '%d files in the dependency closure' % len(closure)))
     checker = 'make -f Makefile.coq %s && coqc Properties/%s.v (Print Assumptions)' % (' '.join(targets), pid)
     if tier == 'thorough' and ok and os.environ.get('VERIF_NO_COQCHK') != '1':
         lib = 'Sccache.Properties.' + pid
